@@ -25,7 +25,8 @@ EXTENDS Naturals, Integers, Sequences, FiniteSets, TLC, Json
 
 CONSTANTS Dim,        \* 2 or 3: hyperbolic / projective space of this dimension
           K,          \* number of base units per class
-          MaxWord     \* maximal number of transformations applied to a unit
+          MaxWord,    \* maximal number of transformations applied to a unit
+          ClassSel    \* the classes to explore (a subset of Classes)
 
 VARIABLES cls, k, w
 
@@ -226,7 +227,7 @@ ShortIdsInjective ==
 (* One state per id                                                        *)
 (***************************************************************************)
 \* the ids are explored as a state machine: a base unit, then one more transformation applied
-Init == cls \in Classes /\ k \in 1..K /\ w = <<>>
+Init == cls \in (ClassSel \cap Classes) /\ k \in 1..K /\ w = <<>>
 Next == /\ Len(w) < MaxWord
         /\ \E a \in Letters(cls) : w' = Append(w, a)
         /\ UNCHANGED <<cls, k>>
